@@ -48,15 +48,22 @@ fn palette_scan_lowest_minimum() {
     assert!(unsafe { CALLS } > 0, "HARNESS-LIMIT: the scan did not go through the stubbed distance function");
     let gi = ansi_index(got) as usize;
     // specification: lowest index whose distance is minimal
+    let best = t[tags[gi] as usize];
+    let mut minimal = true;
+    let mut lowest = true;
     let mut i = 0;
     while i < 16 {
         let d = t[tags[i] as usize];
-        assert!(t[tags[gi] as usize] <= d, "result has minimal distance");
-        if i < gi {
-            assert!(d > t[tags[gi] as usize], "ties go to the lowest index");
+        if best > d {
+            minimal = false;
+        }
+        if i < gi && d <= best {
+            lowest = false;
         }
         i += 1;
     }
+    assert!(minimal, "result has minimal distance");
+    assert!(lowest, "ties go to the lowest index");
     assert!(anstyle_lossy::color_to_ansi(Color::Rgb(RgbColor(q.0, q.1, q.2)), Palette(pal)) == got);
     kani::cover!(gi == 15);
     kani::cover!(gi == 0 && tags[0] == tags[7]);
@@ -82,12 +89,17 @@ pub fn table240(c1: RgbColor, c2: RgbColor) -> u32 {
     }
 }
 
-#[kani::proof]
-#[kani::stub(anstyle_lossy::distance, table240)]
-#[kani::unwind(243)]
-fn xterm_scan_lowest_minimum() {
+fn xterm_scan_body(levels: u8) {
     let q: (u8, u8, u8) = kani::any();
     let t: [u8; 240] = kani::any();
+    if levels != 0 {
+        // quick tier: distance tables with at most `levels` distinct values
+        let mut i = 0;
+        while i < 240 {
+            kani::assume(t[i] < levels);
+            i += 1;
+        }
+    }
     unsafe {
         QUERY = q;
         T240 = t;
@@ -97,17 +109,40 @@ fn xterm_scan_lowest_minimum() {
     assert!(unsafe { CALLS } == 240, "every one of the 240 candidates is examined exactly once");
     assert!(got.index() >= 16, "candidates are indices 16-255 only");
     let gi = (got.index() - 16) as usize;
+    let best = t[gi];
+    let mut minimal = true;
+    let mut lowest = true;
     let mut i = 0;
     while i < 240 {
-        assert!(t[gi] <= t[i], "result has minimal distance");
-        if i < gi {
-            assert!(t[i] > t[gi], "ties go to the lowest index");
+        if best > t[i] {
+            minimal = false;
+        }
+        if i < gi && t[i] <= best {
+            lowest = false;
         }
         i += 1;
     }
+    assert!(minimal, "result has minimal distance");
+    assert!(lowest, "ties go to the lowest index");
     kani::cover!(gi == 239);
     kani::cover!(gi == 0);
     kani::cover!(gi == 100 && t[100] == t[200]);
+}
+
+#[kani::proof]
+#[kani::stub(anstyle_lossy::distance, table240)]
+#[kani::unwind(243)]
+fn xterm_scan_lowest_minimum() {
+    xterm_scan_body(0);
+}
+
+/// Same lemma over distance tables with at most four distinct values (every weak order of
+/// the 240 candidates with <= 4 levels): minutes instead of half an hour.
+#[kani::proof]
+#[kani::stub(anstyle_lossy::distance, table240)]
+#[kani::unwind(243)]
+fn xterm_scan_lowest_minimum_4_levels() {
+    xterm_scan_body(4);
 }
 
 // ------------------------------------------------------------------ K3: direct conversions
